@@ -10,7 +10,7 @@ Instead of teaching every rule every spelling, the program is rewritten once int
                      (expression helpers anywhere; statement helpers at statement level; tail calls; `yield from` helpers)
   C. local literals  single-assignment locals bound to a literal are substituted (attribute reads are NOT treated as pure:
                      `h = x.hasher` creates an object; value-level aliasing is the interpreter's business)
-  D. spellings       not a == b -> a != b ; x = x op y -> x op= y ; d.get(k, None) -> d.get(k) ; range(0, n) -> range(n) ;
+  D. spellings       not a == b -> a != b ; x = x op y -> x op= y ; d.get(k, None) -> d.get(k) ; range(0, n) -> range(n) ; filter(lambda x: c, it) -> (x for x in it if c) ;
                      super(K, self) -> super() ; v = a if c else b -> if c: v = a else: v = b ; len(x) == 0 (test) -> not x ;
                      if not c: A else: B -> if c: B else: A ; keyword arguments of resolvable callees -> positional
 
@@ -250,6 +250,7 @@ class Canon(object):
             if not self._inline_round(fn, cls, m):
                 break
             self._hoist_ifexp(fn)
+            self._subst_consts(fn, cls, m)      # an inlined body brings its own references to new constants
         for _ in range(3):
             if not self._local_aliases(fn):
                 break
@@ -1058,6 +1059,16 @@ class Spell(ast.NodeTransformer):
         if fn == 'range' and len(node.args) == 2 and isinstance(node.args[0], ast.Constant) and node.args[0].value == 0:
             node.args = node.args[1:]
             self._hit()
+        # filter(lambda x: c, it) -> (x for x in it if c)
+        if fn == 'filter' and len(node.args) == 2 and not node.keywords and isinstance(node.args[0], ast.Lambda):
+            la = node.args[0].args
+            if len(la.args) == 1 and not (la.posonlyargs or la.kwonlyargs or la.vararg or la.kwarg or la.defaults):
+                v = la.args[0].arg
+                new = ast.GeneratorExp(elt=ast.Name(id=v, ctx=ast.Load()),
+                                       generators=[ast.comprehension(target=ast.Name(id=v, ctx=ast.Store()), iter=node.args[1],
+                                                                     ifs=[node.args[0].body], is_async=0)])
+                self._hit()
+                return _relocate(new, node)
         # super(K, self) -> super()
         if fn == 'super' and len(node.args) == 2 and self.cls is not None and isinstance(node.args[0], ast.Name) and \
                 node.args[0].id == self.cls.name and isinstance(node.args[1], ast.Name) and node.args[1].id == self.first:
